@@ -334,7 +334,16 @@ class isoparser(object):
 
         # Now add the specific number of weeks and days to get what we want
         week_offset = (week - 1) * 7 + (day - 1)
-        return week_1 + timedelta(days=week_offset)
+        try:
+            result = week_1 + timedelta(days=week_offset)
+        except OverflowError:
+            raise ValueError('Week date out of range')
+
+        # Week 53 only exists in years that have 53 ISO weeks
+        if week == 53 and result.isocalendar()[1] != 53:
+            raise ValueError('Invalid week: {}'.format(week))
+
+        return result
 
     def _parse_isotime(self, timestr):
         len_str = len(timestr)
